@@ -118,6 +118,34 @@ def run(ctx):
         ok = all(g.must_pass_after(s, ap) for s in st)
     ctx.ob('C28-WRAP._attr_changed_-marks-and-queues', ac, wb[0].ast if wb else ac.node, ok,
            '' if ok else '_attr_changed_ does not set the write bit / status / save queue')
+    # ---------------------------------------------------------------- OWNER
+    # a value that is already tracked may be handed back unchanged only if it is tracked for *this* object and attribute:
+    # all instances of an entity share the attribute object, so an attr-only test keeps the value bound to another owner
+    n_owner = 0
+    for f in [repo.fn(M, 'TrackedValue.make'), repo.fn('pony.orm.dbapiprovider', 'JsonConverter.validate'),
+              repo.fn('pony.orm.dbapiprovider', 'ArrayConverter.validate')]:
+        g = cg.cfg(f)
+        for rn in [x for x in g.nodes if x.kind == 'stmt' and isinstance(x.ast, ast.Return) and isinstance(x.ast.value, ast.Name)]:
+            v = rn.ast.value.id
+            if v not in f.params: continue
+            full = {t.id for t in g.nodes if t.kind == 'test' and ('%s.obj_ref() is' % v) in norm(t.ast) and ('%s.attr is' % v) in norm(t.ast)}
+            noowner = {t.id for t in g.nodes if t.kind == 'test' and ' is None' in norm(t.ast) and 'obj' in norm(t.ast)}
+            cont = {t.id for t in g.nodes if t.kind == 'test' and norm(t.ast) in ('isinstance(%s, dict)' % v, 'isinstance(%s, list)' % v)}
+            # paths to this return that (a) did not pass the full owner test's true edge, (b) did not establish "no owner",
+            r1 = g.reach([g.entry], edge_ok=lambda x, y, lab: not ((x in full or x in noowner) and lab == 'T'))
+            if rn.id not in r1:
+                n_owner += 1
+                ctx.ob('C28-OWNER.tracked-value-reused-only-for-same-owner', f, rn.ast, True, node=rn.ast); continue
+            # (c) ... must have excluded containers: both isinstance(dict) and isinstance(list) left through F
+            p = g.path(g.entry, rn, edge_ok=lambda x, y, lab: not ((x in full or x in noowner) and lab == 'T') and not (x in cont and lab == 'T'))
+            tests_on = [n for n in (p or []) if n.id in cont]
+            ok = p is not None and len({norm(n.ast) for n in tests_on}) == 2 and not any(
+                n.kind == 'test' and 'TrackedValue' in norm(n.ast) for n in p)
+            n_owner += 1
+            ctx.ob('C28-OWNER.tracked-value-reused-only-for-same-owner', f, rn.ast, ok,
+                   '' if ok else '`return %s` hands back a value that may already be tracked for another object (the test on this path '
+                   'does not compare both %s.obj_ref() and %s.attr)' % (v, v, v), node=rn.ast)
+    ctx.floor('C28-OWNER', n_owner, 4, 'returns of the incoming value in make/validate')
     # ---------------------------------------------------------------- ARRAY
     vi = repo.fn(M, 'validate_item')
     for name in ITEM_ADDING:
@@ -201,5 +229,11 @@ MUTANTS = [
     dict(id='C28-m9', file='pony/orm/ormtypes.py', old='    clear = tracked_method(dict.clear)\n', new='    clear = tracked_method(dict.clear)\n    get = tracked_method(dict.get)\n', expect='C28-ONLY'),
     dict(id='C28-m10', file='pony/orm/core.py', fn='Entity._attr_changed_', old='                objects_to_save.append(obj)\n', new='', expect='C28-WRAP._attr_changed_'),
     dict(id='C28-m11', file='pony/orm/ormtypes.py', fn='TrackedArray.insert', old='        item = validate_item(self.item_type, item)\n        TrackedList.insert', new='        TrackedList.insert', expect='C28-ARRAY'),
+    dict(id='C28-m13', file='pony/orm/ormtypes.py', fn='TrackedValue.make',
+         old='        if isinstance(value, dict):', new='        if isinstance(value, TrackedValue) and value.attr is attr:\n            return value\n        if isinstance(value, dict):',
+         expect='C28-OWNER'),
+    dict(id='C28-m14', file='pony/orm/dbapiprovider.py', fn='JsonConverter.validate',
+         old='if isinstance(val, TrackedValue) and val.obj_ref() is obj and val.attr is converter.attr:', new='if isinstance(val, TrackedValue) and val.attr is converter.attr:',
+         expect='C28-OWNER'),
     dict(id='C28-m12', file='pony/orm/ormtypes.py', fn='TrackedValue._changed_', old='obj._attr_changed_(self.attr)', new='pass', expect='C28-WRAP._changed_'),
 ]
